@@ -29,6 +29,9 @@ var scanOpNames = []string{"Read", "Unread", "UnreadMany(2)", "UnreadMany(3)", "
 type c11Case struct {
 	Content string `json:"content"`
 	Ops     []int  `json:"ops"`
+	// Quiet: Line() / Column() are not read between the steps (only the operations' own results are checked, and
+	// everything at the end), so that an observation cannot repair lazily maintained state before it is used
+	Quiet bool `json:"quiet,omitempty"`
 }
 
 // refCoords is the reference coordinate model: coords[p+1] = (line, column) reported when the cursor
@@ -87,6 +90,9 @@ func checkC11(c c11Case) (fail *evid.Fail) {
 			return -1
 		}
 		observe := func(step int, opn string) *evid.Fail {
+			if c.Quiet && opn != "final-reads" && opn != "final" {
+				return nil
+			}
 			if s.Line() != coords[p+1][0] || s.Column() != coords[p+1][1] {
 				return evid.F("coords-after:"+opn, "content %q ops %s: after step %d (%s) at position %d scanner reports %d:%d, a forward scan reports %d:%d",
 					c.Content, opsString(c.Ops), step, opn, p, s.Line(), s.Column(), coords[p+1][0], coords[p+1][1])
@@ -126,7 +132,14 @@ func checkC11(c c11Case) (fail *evid.Fail) {
 					return
 				}
 			case opPeekLine, opPeekColumn:
-				pl, pc := s.PeekLine(), s.PeekColumn()
+				var pl, pc int
+				if op == opPeekColumn {
+					pc = s.PeekColumn() // the named getter first: nothing else has looked at the scanner since the last operation
+					pl = s.PeekLine()
+				} else {
+					pl = s.PeekLine()
+					pc = s.PeekColumn()
+				}
 				if p+1 < n {
 					if pl != coords[p+2][0] || pc != coords[p+2][1] {
 						res = evid.F("peek-coords", "content %q ops %s: step %d at position %d peeked %d:%d but the next read reports %d:%d",
@@ -150,6 +163,10 @@ func checkC11(c c11Case) (fail *evid.Fail) {
 			}
 		}
 		// final observation of everything, then the cursor itself: the remaining reads
+		if f := observe(len(c.Ops), "final"); f != nil {
+			res = f
+			return
+		}
 		if got, want := s.Peek(), at(p+1); got != want {
 			res = evid.F("peek-value", "content %q ops %s: final Peek returned %d want %d", c.Content, opsString(c.Ops), got, want)
 			return
@@ -259,13 +276,21 @@ func TestC11_Exhaustive(t *testing.T) {
 		ops[0], ops[1] = j.a, j.b
 		var recur func(k int)
 		recur = func(k int) {
+			if k == depth-1 {
+				q := c11Case{Content: j.content, Ops: ops[:k], Quiet: true}
+				nt, labels := c11Classify(q)
+				rec.Case("q|"+j.content+"|"+string(opsKey(ops[:k])), nt, nil, append(labels, "quiet")...)
+				if f := checkC11(q); f != nil {
+					rec.Fail(f, c11Case{Content: j.content, Ops: append([]int{}, ops[:k]...), Quiet: true})
+				}
+			}
 			if k == depth {
-				c := c11Case{j.content, ops}
+				c := c11Case{Content: j.content, Ops: ops}
 				nt, labels := c11Classify(c)
 				key := j.content + "|" + string(opsKey(ops))
-				rec.Case(key, nt, func() interface{} { return c11Case{j.content, append([]int{}, ops...)} }, labels...)
+				rec.Case(key, nt, func() interface{} { return c11Case{Content: j.content, Ops: append([]int{}, ops...)} }, labels...)
 				if f := checkC11(c); f != nil {
-					rec.Fail(f, c11Case{j.content, append([]int{}, ops...)})
+					rec.Fail(f, c11Case{Content: j.content, Ops: append([]int{}, ops...)})
 				}
 				return
 			}
@@ -349,7 +374,7 @@ func TestC11_Rapid(t *testing.T) {
 			walk := make([]int, rapid.IntRange(n/2, n+2).Draw(rt, "walk"))
 			ops = append(walk, ops...)
 		}
-		c := c11Case{sb.String(), ops}
+		c := c11Case{Content: sb.String(), Ops: ops, Quiet: rapid.Bool().Draw(rt, "quiet")}
 		nt, labels := c11Classify(c)
 		rec.Case(c.Content+"|"+string(opsKey(ops)), nt, func() interface{} { return c }, labels...)
 		if f := checkC11(c); f != nil {
